@@ -26,6 +26,19 @@ REPO = os.environ.get("VERIF_REPO", "/repo")
 COQ = os.path.join(VERIF, "coq")
 HARNESS = os.path.join(VERIF, "harness")
 RUNROOT = os.path.join(COQ, "run")
+# Development aid (never used by the registered commands): VERIF_SCRATCH=<dir> together with VERIF_REPO=<copy of
+# the repo> runs a check against a scratch copy of the repository without touching /verif's harness module,
+# run directory, evidence or replays (so that several people can work in /verif at once).
+SCRATCH = os.environ.get("VERIF_SCRATCH")
+EVIDENCE_DIR = os.path.join(VERIF, "evidence")
+REPLAY_DIR = os.path.join(VERIF, "replays")
+if SCRATCH:
+    os.makedirs(SCRATCH, exist_ok=True)
+    subprocess.run(["rsync", "-a", "--delete", "--exclude", "go.mod", "--exclude", "go.sum", HARNESS + "/", os.path.join(SCRATCH, "harness") + "/"], check=True)
+    HARNESS = os.path.join(SCRATCH, "harness")
+    RUNROOT = os.path.join(SCRATCH, "run")
+    EVIDENCE_DIR = os.path.join(SCRATCH, "evidence")
+    REPLAY_DIR = os.path.join(SCRATCH, "replays")
 TAG = "verif"
 
 ALLOWED_AXIOMS = {
@@ -143,8 +156,15 @@ def gen_gomod():
 
 
 def genconsts():
-    rc, out = sh(["go", "run", "./cmd/genconsts", REPO, "cmd/genconsts/consts.json",
-                  os.path.join(COQ, "theories/Gen/Consts.v")], cwd=HARNESS, env=goenv(), timeout=600)
+    target = os.path.join(COQ, "theories/Gen/Consts.v")
+    if SCRATCH:
+        # scratch runs must not rewrite the shared Consts.v: generate aside and report a difference as a broken obligation
+        aside = os.path.join(SCRATCH, "Consts.v")
+        rc, out = sh(["go", "run", "./cmd/genconsts", REPO, "cmd/genconsts/consts.json", aside], cwd=HARNESS, env=goenv(), timeout=600)
+        if rc == 0 and open(aside).read() != open(target).read():
+            return 3, "constants in the scratch repo differ from Gen/Consts.v (run against /repo to re-check the proofs that use them)"
+        return rc, out
+    rc, out = sh(["go", "run", "./cmd/genconsts", REPO, "cmd/genconsts/consts.json", target], cwd=HARNESS, env=goenv(), timeout=600)
     return rc, out
 
 
@@ -392,8 +412,8 @@ def check(pid, tier, replay=None):
     outdir = os.path.join(RUNROOT, pid)
     shutil.rmtree(outdir, ignore_errors=True)
     os.makedirs(outdir)
-    evidence_path = os.path.join(VERIF, "evidence", pid + ".json")
-    replay_dir = os.path.join(VERIF, "replays")
+    evidence_path = os.path.join(EVIDENCE_DIR, pid + ".json")
+    replay_dir = REPLAY_DIR
     os.makedirs(replay_dir, exist_ok=True)
     broken = []       # broken proof obligations / ties (strings)
     notes = []
